@@ -1,7 +1,7 @@
 CONSTANTS
   HashMode = "collide"
   Bug = "none"
-  Sweeps = {"small", "hsmall", "xsmall", "ssmall", "nsmall"}
+  Sweeps = {"small", "hsmall", "xsmall", "ssmall", "ksmall", "nsmall"}
   PairDepth = 2
   NearDepth = 2
   DeepDepth = 3
